@@ -1230,7 +1230,18 @@ class RealOracle(LayoutEnvelope):
                 self.envelope_reads += 1
                 return
         if not same:
-            self.fails.append(f"[{ctx}] stale or corrupted read of '{name}' ({api}: differs bitwise from a from-scratch evaluation)")
+            detail = ""
+            try:
+                a_ = (got.weighted_value if isinstance(got, WeightedTensor) else got) if api != "aslists" else None
+                b_ = (want.weighted_value if isinstance(want, WeightedTensor) else want) if api != "aslists" else None
+                if a_ is not None and a_.shape == b_.shape:
+                    d_ = (a_.double() - b_.double()).abs()
+                    d_ = torch.nan_to_num(d_, nan=float("inf"))
+                    detail = (f"; max |difference| {float(d_.max()):.3g} at magnitude {float(torch.nan_to_num(b_.double().abs(), nan=0.0, posinf=0.0).max()):.3g}, "
+                              f"{int((d_ > 0).sum())} of {d_.numel()} entries")
+            except Exception:  # noqa
+                pass
+            self.fails.append(f"[{ctx}] stale or corrupted read of '{name}' ({api}: differs bitwise from a from-scratch evaluation{detail})")
 
     def read_some(self, st, ctx, k=5, pool=None):
         pool = list(st.dag.sorted_variables_names) if pool is None else pool
@@ -1594,6 +1605,14 @@ class RealOracle(LayoutEnvelope):
                                 self.check_read(st, k, ctx + (" kept" if keep else " reverted"))
                     continue
                 var = rng.choice(self.pop if kind.startswith("pop") else self.ind)
+                if kind == "ind-partial" and any(st._values.get(v) is not None and st._values[v].ndim < 2 for v in self.ind):
+                    # an individual variable without its trailing axis (shape (n,) instead of (n, 1): what the mixture model's prior
+                    # mode / mean initialisation produces, finding F121) broadcasts against (n, n_visits) tensors along the WRONG
+                    # axis when n = n_visits: the documented precondition of a per-individual revert ("valid broadcasting for the
+                    # forked node and all of its children") does not hold for such a state — the proposal is rejected as a whole
+                    kind = "ind-reject"
+                    self.kinds_done["ind-partial-skipped:1-d individual variable (F121 family)"] = \
+                        self.kinds_done.get("ind-partial-skipped:1-d individual variable (F121 family)", 0) + 1
                 for k in rng.sample(names, rng.randrange(0, 4)):
                     self.check_read(st, k, ctx + " before")
                 old = st[var].clone()
